@@ -133,6 +133,8 @@ type sched struct {
 	yields []uint8
 	next   int
 	Trace  []string
+	delays []uint16 // virtual milliseconds a slow delegate spends inside successive Acquire calls (0 = none)
+	nextD  int
 	spin   bool // real-parallel mode: spin instead of yielding
 	off    bool // disarmed: points are ignored (prefill / unwinding phases)
 }
@@ -203,6 +205,21 @@ func (l schedLogger) Debugf(msg string, params ...interface{}) {
 }
 func (l schedLogger) IsDebugEnabled() bool { return false }
 
+// slowLimiter is an injected delegate for real-clock runs: a delegate may be slow.
+type slowLimiter struct {
+	inner core.Limiter
+	d     time.Duration
+	n     atomic.Int64
+}
+
+func (s *slowLimiter) Acquire(ctx context.Context) (core.Listener, bool) {
+	l, ok := s.inner.Acquire(ctx)
+	if s.n.Add(1)%3 == 0 {
+		time.Sleep(s.d)
+	}
+	return l, ok
+}
+
 // yieldLimiter is an injected delegate: schedule points after every delegate attempt and after
 // every inner completion (i.e. before the wrapper's broadcast / unblock).
 type yieldLimiter struct {
@@ -213,6 +230,25 @@ type yieldLimiter struct {
 type yieldListener struct {
 	inner core.Listener
 	s     *sched
+}
+
+// delay consumes the next generated delay: a delegate may be slow (time passes inside its Acquire).
+func (s *sched) delay() {
+	if s == nil {
+		return
+	}
+	s.mu.Lock()
+	d := 0
+	if !s.off && s.nextD < len(s.delays) {
+		d = int(s.delays[s.nextD])
+	}
+	if !s.off {
+		s.nextD++
+	}
+	s.mu.Unlock()
+	if d > 0 {
+		time.Sleep(time.Duration(d) * time.Millisecond)
+	}
 }
 
 func (y *yieldLimiter) Acquire(ctx context.Context) (core.Listener, bool) {
@@ -245,6 +281,7 @@ type StackCfg struct {
 	TimeoutNs  int64  `json:"timeout_ns,omitempty"`  // overrides TimeoutMs when non-zero
 	DeadlineNs int64  `json:"deadline_ns,omitempty"` // overrides DeadlineMs when non-zero
 	WinNs      int64  `json:"win_ns,omitempty"`      // DefaultLimiter window time (min=max); default 1 ms
+	SlowUs     int    `json:"slow_us,omitempty"`     // real-clock runs only: the delegate sleeps that long in every third Acquire
 	Inject     bool   `json:"inject,omitempty"`      // wrap the delegate with schedule points
 	Defaults   bool   `json:"defaults,omitempty"`    // use the ...WithDefaults constructor (queue kinds)
 }
@@ -386,6 +423,9 @@ func buildStack(cfg StackCfg, lim core.Limit, sc *sched, t0 time.Time) (*stack, 
 	if cfg.Inject && sc != nil {
 		delegate = &yieldLimiter{def, sc}
 		logger = schedLogger{sc}
+	}
+	if cfg.SlowUs > 0 {
+		delegate = &slowLimiter{inner: delegate, d: time.Duration(cfg.SlowUs) * time.Microsecond}
 	}
 	timeout := time.Duration(cfg.TimeoutMs) * time.Millisecond
 	if cfg.TimeoutNs != 0 {
